@@ -226,6 +226,17 @@ def execute(lines, tag, binary=None):
         with open(gp, "a") as f:
             f.write("crash:%s\n" % ("timeout" if rc == -9 else "fatal"))
     mism, tail = run_lean(sp, gp)
+    # distinct non-trivial cases: script lines (by content) that the Go side actually executed (not `skip`, not a comment)
+    nontrivial = set()
+    try:
+        with open(gp) as f:
+            for ln, out in zip(lines, f):
+                if ln and not ln.startswith("#") and not out.startswith("skip"):
+                    nontrivial.add(hash(ln))
+    except OSError:
+        pass
+    execute.last_nontrivial = getattr(execute, "last_nontrivial", {})
+    execute.last_nontrivial[tag] = nontrivial
     try:
         os.unlink(sp)
         os.unlink(gp)
@@ -383,8 +394,10 @@ def check_property(pid, tier, seed, replay_only=None):
             hist = {"corpus:script": 1}
         else:
             lines, hist = gen.generate(suite_gen, sd, sc, tier)
-        mism, nout, crash = execute(lines, "%s_%s_%d" % (pid, re.sub(r"[^A-Za-z0-9]+", "_", suite)[-40:], sd), binary=binary)
-        out = {"suite": suite, "seed": sd, "lines": lines, "hist": hist, "nout": nout, "crash": crash, "foreign": [], "viol": None,
+        tag = "%s_%s_%d" % (pid, re.sub(r"[^A-Za-z0-9]+", "_", suite)[-40:], sd)
+        mism, nout, crash = execute(lines, tag, binary=binary)
+        nontriv = getattr(execute, "last_nontrivial", {}).pop(tag, set())
+        out = {"nontrivial": nontriv, "suite": suite, "seed": sd, "lines": lines, "hist": hist, "nout": nout, "crash": crash, "foreign": [], "viol": None,
                "known": []}
         for mm in mism:
             op = op_of(mm["cmd"])
@@ -417,9 +430,10 @@ def check_property(pid, tier, seed, replay_only=None):
         cov["suites"].setdefault(suite, {"lines": 0, "runs": 0})
         cov["suites"][suite]["lines"] += out["nout"]
         cov["suites"][suite]["runs"] += 1
+        cov["distinct"] |= out["nontrivial"]
         for l in lines:
             toks = l.split(" ")
-            cov["distinct"].add((toks[0], len(toks)))
+            cov.setdefault("opclasses", set()).add((toks[0], len(toks)))
         if len(cov["samples"]) < 3:
             k = min(len(lines), 6)
             cov["samples"].append({"suite": suite, "seed": sd, "first_lines": [x[:160] for x in lines[:k]]})
@@ -458,8 +472,11 @@ def finish(pid, tier, seed, t0, violations, known_hits, info, proof_broken, obli
         "theorems": P.get("theorems", []),
         "evaluations": cov.get("evaluations", 0),
         "distinct_nontrivial": len(distinct),
-        "rule": "script lines executed by both the Go code and the Lean model; distinct = distinct (operator, arity) pairs "
-                "exercised; per-class counts of generated shapes / alignments / operators are in 'histogram'",
+        "rule": "evaluations = script lines run through both the Go code and the Lean checker; distinct_nontrivial = number of DISTINCT "
+                "script lines (by content) that the Go side actually executed (its output is not `skip`, the line is not a comment); "
+                "'operator_classes' = distinct (operator, arity) pairs; per-class counts of generated shapes / alignments / operators "
+                "are in 'histogram'",
+        "operator_classes": len(cov.get("opclasses", set())),
         "samples": cov.get("samples", []) or [{"note": "no script executed"}],
         "suites": cov.get("suites", {}),
         "histogram": cov.get("histogram", {}),
